@@ -32,9 +32,9 @@ CFG = {
             "the real leptos_integration_utils::build_response; global arena with build_response reproduced). Oracle: each response's HTML and leaf log "
             "== the same request replayed ALONE with the same relative order of its own actions. Shared observable: per response, the context tags "
             "each leaf saw. distinct = distinct op text; trivial = no async boundary / cleanup / early drop (tags only in plain,in-order,ooo,for,provider). "
-            "One third of the random cases may contain the known classes F-C20-1 (lazy leaf in the view of a Suspend outside Suspense) and F-C20-3 (Action future, its gate fired only by drop/abort/end); shapes of F-C20-4 (abort under a foreign arena of a page with on_cleanup), of F-C20-2 "
-            "(Suspense or on_cleanup under a late-rendered Provider/Suspense) and nested Suspend-in-Suspend inside Suspense (timing-dependent content, C07) "
-            "are only in the corpus / not generated",
+            "Since the repairs fix-c20-1/3/4 the shapes of the former findings F-C20-1..4 (lazy leaves, Providers, Suspenses, on_cleanup and Actions in the view of a "
+            "Suspend outside Suspense; aborts of pages with on_cleanup under a foreign arena) are generated freely and must pass; only nested Suspend-in-Suspend "
+            "inside Suspense (timing-dependent content, C07) is not generated",
     "trusted": [
         "hx_common::sched controlled executor standing in for any executor (one task polled at a time, one thread); streams polled by hand with a no-op waker",
         "ExtendResponse::from_app is reproduced (stream chained with owner.unset() inside Sandboxed), not linked (needs a ServerMetaContextOutput and awaits the first chunk)",
@@ -43,7 +43,7 @@ CFG = {
     "modelled": [
         "thread-locals OWNER/OBSERVER/MAP", "Owner::with / set / unset / new_root", "WithObserver::with_observer", "ScopedFuture::poll", "Sandboxed::poll",
         "spawn sites' wrapping flags (spawn_local_scoped = ScopedFuture+Sandboxed; reactive_graph::spawn = Sandboxed only: Action::dispatch, OnceResource (ScopedFuture at construction), ArcAsyncDerived tasks)", "use_context / provide_context", "ArenaItem allocation + Owner::cleanup of a root",
-        "WHICH call sites are wrapped: modelled, not verified — checked by the correspondence (two unwrapped sites found: F-C20-1/2)",
+        "WHICH call sites are wrapped: modelled, not verified — checked by the correspondence (unwrapped sites found and repaired: F-C20-1/2/3, F-C20-4)",
         "slotmap key uniqueness", "ScopedFuture::new without a current owner (unwrap_or_default) not modelled",
     ],
     "assumptions": [
@@ -60,7 +60,8 @@ CFG = {
                 "kernel-checked witness (C20_unwrapped_leaks_witness: one unwrapped task leaks). WHICH real call sites are wrapped is modelled, not verified: the "
                 "correspondence exercises the real call sites (build_response, Suspend, Suspense, Resource/OnceResource/AsyncDerived families, Action, spawn_local_scoped, isomorphic effects, Provider, For, Router/FlatRoutes/Routes, on_cleanup, arena items of child owners, client aborts; two arena configurations) "
                 "under controlled interleavings and compares every response with its solo render; it found the view of a Suspend outside Suspense rendered "
-                "unwrapped by the stream (known findings F-C20-1/2), an Action's future spawned unscoped (F-C20-3) and cleanups of an aborted response running under a foreign arena (F-C20-4).",
+                "unwrapped by the stream (F-C20-1/2), an Action's future spawned unscoped (F-C20-3) and cleanups of an aborted response running under a foreign arena (F-C20-4): "
+                "all four repaired in /repo (fix-c20-1, fix-c20-3, fix-c20-4); the model's site table follows the repaired code, the old table is kept with regression #guards.",
         "design_ref": "DESIGN.md §7 C20",
         "note": "partial: proof is about the discipline model; the tie to the code is the differential run over the program grammar",
         "technique": "Lean 4 proof (simulation/non-interference over all schedules) + refutation witness + differential correspondence with solo-render oracle",
@@ -68,39 +69,10 @@ CFG = {
 }
 
 
-def _merge_proposed_known(core):
-    """known_findings.txt is owned by the lead; until the proposed C20 lines (props/C20.known, same format) are moved there
-    they are read from here as well.  Nothing is written."""
-    import re
-    if getattr(core, "_c20_known_merged", False):
-        return
-    orig = core.load_known
-
-    def load_known(pid):
-        known, fixed = orig(pid)
-        path = os.path.join(core.VERIF, "props", "C20.known")
-        if pid == "C20" and os.path.exists(path):
-            for line in open(path):
-                m = re.match(r"known:\s+property=(\S+)\s+class=(\S+)\s+(.*)", line.strip())
-                if m and m.group(1) == pid:
-                    known.setdefault(m.group(2), m.group(3))
-        return known, fixed
-
-    core.load_known = load_known
-    core._c20_known_merged = True
-
-
-def replay(path):
-    from vlib import core
-    _merge_proposed_known(core)
-    return core.replay(CFG, path)
-
-
 def run(tier, seed):
     """primary configuration through the shared procedure (bin c20: sandboxed arenas, real build_response), then the SAME
     ops through bin c20g (global arena) compared with the same model output; a failure there is a violation too"""
     from vlib import core
-    _merge_proposed_known(core)
     crate = os.path.join(core.HARNESS, CFG["harness_pkg"])
     rc = core.run_check(CFG, tier, seed)
     workdir = os.path.join(core.WORK, "C20")
@@ -126,7 +98,6 @@ def run(tier, seed):
         cases = core.group_cases(core.read_lines(ops_path), core.read_lines(g_out) if os.path.exists(g_out) else [],
                                  core.read_lines(model_out))
         oracle, disagree, hits = [], [], {}
-        cases = [c for c in cases if not str(c.name).startswith("corpus-03-sandboxed-only")]
         for c in cases:
             for kind, detail in core.judge_case(c, known):
                 if kind == "known":
